@@ -1,6 +1,9 @@
 package props
 
 import (
+	"sort"
+	"strings"
+	"unicode/utf8"
 	"encoding/json"
 	"fmt"
 	"net/url"
@@ -72,3 +75,20 @@ func TestSelf(t *testing.T) { selfTest(t) }
 func jwkPtr(k jose.JSONWebKey) *jose.JSONWebKey { return &k }
 
 func jsonMarshal(v any) ([]byte, error) { return json.Marshal(v) }
+
+func sortStrings(l []string) { sort.Strings(l) }
+
+// perByteValid replaces every invalid UTF-8 byte by U+FFFD (what encoding/json and html/template emit).
+func perByteValid(s string) string {
+	var b strings.Builder
+	for i := 0; i < len(s); {
+		r, sz := utf8.DecodeRuneInString(s[i:])
+		if r == utf8.RuneError && sz == 1 {
+			b.WriteString("�")
+		} else {
+			b.WriteString(s[i : i+sz])
+		}
+		i += sz
+	}
+	return b.String()
+}
